@@ -291,6 +291,8 @@ func (broker *TriggerBroker) GenerateTriggerMessages() {
 			}
 			countsSeen[j] = message.countsSeen
 		}
+		verifAcc("trs", &countsSeen[0], true)
+		verifSync("send", "cm", &countsSeen[0])
 		clientMessageChan <- ClientUpdate{tag: "TRIGGERRATE", state: TriggerRateMessage{HiTime: hiTime, Duration: duration, CountsSeen: countsSeen}}
 	}
 	for j := 0; j < broker.nchannels; j++ {
